@@ -177,6 +177,8 @@ package mimetype
 //@ ghostvar reader_used int
 //@ ghostvar reader_n int
 //@ ghostvar reader_err int
+// reader_want: ghost, the number of bytes the last io.ReadFull was asked for
+//@ ghostvar reader_want int
 // readBytes: ghost, the bytes DetectReader obtained from the reader in this call
 //@ ghostvar readBytes bytes
 //@ spec readFailed() = reader_err != 0 && reader_err != ioEOF() && reader_err != ioUnexpectedEOF()
@@ -188,6 +190,7 @@ package mimetype
 //@   ghost return: readBytes = in
 //@   ensures result0 != nil
 //@   ensures [C04C05C06_limit] old(readLimit) > 0 ==> reader_used - old(reader_used) <= old(readLimit)
+//@   ensures [C05_full_header] old(readLimit) > 0 ==> reader_want == old(readLimit)
 //@   ensures [C02C05_err] result1 != nil ==> result0 == errMIME
 //@   ensures [C05_surface] readFailed() ==> result0 == errMIME && errid(result1) == reader_err
 //@   ensures [C05_noerr] !readFailed() ==> result1 == nil
